@@ -69,6 +69,18 @@ def enc(x):
         return [9, 0, 0, repr(x)[:40]]
     if isinstance(x, Inst):
         return [5, 0, 0]
+    if isinstance(x, list) and len(x) <= 6:          # a list of strings: item codes in base 256 (v_common.list_items)
+        code = 0
+        for it in reversed(x):
+            e = enc(it) if isinstance(it, str) else [9]
+            if e[0] == 3 and -50 <= e[1] < 50:
+                k = (e[1] + 50) * 2 + e[2]
+            elif e[0] == 4:
+                k = 200 + e[1]
+            else:
+                return [9, 2, 0, repr(x)[:40]]
+            code = code * 256 + k
+        return [6, code, len(x)]
     return [9, 1, 0, repr(x)[:40]]
 
 
@@ -120,7 +132,7 @@ def make_validator(desc, pn, idx, journal):
     return HV()
 
 
-CONV = {0: None, 1: int, 2: str, 3: bool}
+CONV = {0: None, 1: int, 2: str, 3: bool, 4: list}
 
 
 def env_name(p):
@@ -194,13 +206,78 @@ def request_ctx(rq):
     from flask import Flask
     if _app is None:
         _app = Flask('pv_validate')
-    kw = {'method': 'POST', 'headers': {pname(int(k)): dec(v) for k, v in rq.get('headers', {}).items()}}
-    qs = {pname(int(k)): dec(v) for k, v in rq.get('args', {}).items()}
-    if rq['json']:
+    from werkzeug.datastructures import MultiDict
+    spell = rq.get('header_spelling', {})
+    kw = {'method': 'POST', 'headers': {header_name(pname(int(k)), spell.get(k, 0)): dec(v) for k, v in rq.get('headers', {}).items()}}
+    more = rq.get('args_more', {})
+    qs = MultiDict([(pname(int(k)), dec(x)) for k, v in rq.get('args', {}).items() for x in [v] + more.get(k, [])])
+    if rq['json'] and rq.get('json_null'):
+        kw['data'], kw['content_type'] = 'null', 'application/json'
+    elif rq['json']:
         kw['json'] = {pname(int(k)): dec(v) for k, v in rq.get('json_body', {}).items()}
     else:
         kw['data'] = {pname(int(k)): dec(v) for k, v in rq.get('form', {}).items()}
     return _app.test_request_context('/', query_string=qs, **kw)
+
+
+def header_name(name, spelling):
+    """the same header in another spelling: as the parameter / upper case / capitalised"""
+    return name if spelling == 0 else name.upper() if spelling == 1 else name.capitalize()
+
+
+# ---- has_value() / load_value() of one source object (stream validate-sources)
+def make_deserializable():
+    from pedantic.decorators.fn_deco_validate.parameters import Deserializable
+    from pedantic.decorators.fn_deco_validate.exceptions import ValidatorException
+
+    class HDeser(Deserializable):
+        """mirrors Model/ValidateEval.from_json"""
+        @staticmethod
+        def from_json(data):
+            v = data['p1']                                   # KeyError without the member, TypeError for the document null
+            if isinstance(v, bool):
+                raise ValueError('a bool')
+            if isinstance(v, int) and v < 0:
+                raise ValidatorException(msg='negative', validator_name='HDeser', value=v)
+            return v
+    return HDeser
+
+
+def run_probe(case):
+    from pedantic.decorators.fn_deco_validate.parameters import EnvironmentVariableParameter
+    from pedantic.decorators.fn_deco_validate.parameters import flask_parameters as fp
+    pr = case['probe']
+    name = pname(pr['n'])
+    vt = list if pr.get('as_list') else None
+    if pr['kind'] == 'env':
+        var = pr.get('env_var')
+        p = EnvironmentVariableParameter(name=name, env_var_name=var, required=False)
+    elif pr['kind'] == 'fdeser':
+        p = fp.GenericFlaskDeserializer(cls=make_deserializable(), catch_exception=pr['catch'], name=name, required=False)
+    else:
+        cls = {'fjson': fp.FlaskJsonParameter, 'fform': fp.FlaskFormParameter, 'fget': fp.FlaskGetParameter,
+               'fheader': fp.FlaskHeaderParameter}[pr['kind']]
+        p = cls(name=name, value_type=vt, required=False)
+    env_vars = case.get('environ_names', {})
+    touched = list(env_vars.values())
+    res = {}
+    try:
+        for k in touched:
+            os.environ.pop(k, None)
+        for code, v in case.get('environ', {}).items():
+            os.environ[env_vars[code]] = dec(v)
+        with request_ctx(case.get('request')):
+            for what, call in (('has', p.has_value), ('load', p.load_value)):
+                try:
+                    r = call()
+                    res[what] = ['ok', int(r) if what == 'has' and isinstance(r, bool) else enc(r)]
+                except BaseException as ex:
+                    pn = getattr(ex, 'parameter_name', None)
+                    res[what] = ['raise', excs.path_of(type(ex)), (ncode(pn) + 1) if pn else 0, type(ex).__name__]
+    finally:
+        for k in touched:
+            os.environ.pop(k, None)
+    return res
 
 
 MODES = None
@@ -267,6 +344,8 @@ def perform(case, target, pdescs, journal, seen, token):
 
 
 def run_case(case):
+    if 'probe' in case:
+        return run_probe(case)
     if 'calls' in case:
         return run_shared(case)
     journal, seen, token = [], [], object()
